@@ -205,7 +205,7 @@ fn derived(ctx: &mut Ctx, arena: &Arena) {
     static INSIDE: &[u8] = b"inside\0";
     static PLANTED: &[u8] = b"PLANTED\0";
     let nmax = if ctx.quick() { 3 } else { 6 };
-    ctx.bound("derived_views", format!("EFI map (desc_size 48, version 1): declared size 16..=16+48*{}+47, tag flush against a guard page and inside a region followed by a marker tag; fresh iterator x {{nth(k), next+nth(k), skip(k).next, step_by(k).nth(1), last, count}} for k in 0..=N+2, every yielded descriptor must sit at 16+48*i with i below (size-16)/48. ELF sections (entry size 64): 0..={} headers + 0..=23 spare bytes x string-table index 0..=N+1, followed by a tag holding planted string addresses; name() must resolve through a header inside the tag or be refused", nmax, nmax.min(3)));
+    ctx.bound("derived_views", format!("EFI map (desc_size 48, version 1): declared size 16..=16+48*{}+47, tag flush against a guard page and inside a region followed by a marker tag; fresh iterator x {{nth(k), next+nth(k), skip(k).next, step_by(k).nth(1), last, count, next+last, next+fold, drain+last}} for k in 0..=N+2, every yielded descriptor must sit at 16+48*i with i below (size-16)/48. ELF sections (entry size 64): 0..={} headers, each in use or unused (every combination), + 0..=23 spare bytes x string-table index 0..=N+1, followed by a tag holding planted string addresses; name() must resolve through a header inside the tag or be refused", nmax, nmax.min(3)));
     // ---------- EFI descriptors
     for size in 16..=(16 + 48 * nmax + 47) as u32 {
         for seam in 0..2 {
@@ -266,6 +266,9 @@ fn derived(ctx: &mut Ctx, arena: &Arena) {
                 progs.push(("collect".into(), ctx.call("collect", || tag.memory_areas().map(|d| rel(d, base)).collect()), all.clone()));
                 progs.push(("last".into(), ctx.call("last", || tag.memory_areas().last().map(|d| rel(d, base)).into_iter().collect()), all.last().copied().into_iter().collect()));
                 progs.push(("rev-count".into(), ctx.call("count", || vec![tag.memory_areas().count() as i64]), vec![]));
+                progs.push(("next;last".into(), ctx.call("next+last", || { let mut it = tag.memory_areas(); let _ = it.next(); it.last().map(|d| rel(d, base)).into_iter().collect() }), if n >= 2 { vec![n - 1] } else { vec![] }));
+                progs.push(("next;fold".into(), ctx.call("next+fold", || { let mut it = tag.memory_areas(); let _ = it.next(); it.fold(vec![], |mut v, d| { v.push(rel(d, base)); v }) }), all.iter().copied().skip(1).collect()));
+                progs.push(("drain;last".into(), ctx.call("drain+last", || { let mut it = tag.memory_areas(); while it.next().is_some() {} it.clone().last().into_iter().chain(it.next()).map(|d| rel(d, base)).collect() }), vec![]));
                 for k in 0..=n + 2 {
                     progs.push((format!("nth({})", k), ctx.call("nth", || tag.memory_areas().nth(k).map(|d| rel(d, base)).into_iter().collect()), all.iter().copied().skip(k).take(1).collect()));
                     progs.push((format!("next;nth({})", k), ctx.call("next+nth", || { let mut it = tag.memory_areas(); let _ = it.next(); it.nth(k).map(|d| rel(d, base)).into_iter().collect() }), all.iter().copied().skip(k + 1).take(1).collect()));
@@ -307,6 +310,11 @@ fn derived(ctx: &mut Ctx, arena: &Arena) {
     for n in 0..=nmax.min(3) {
         for spare in 0..24usize {
             for shndx in 0..=(n + 1) as u32 {
+              // which headers are in use (bit k set = header k has type 1, else type 0 = unused)
+              for used in 0..(1u32 << n) {
+                if spare % 4 != 0 && used != (1u32 << n) - 1 {
+                    continue;
+                }
                 let size = 20 + 64 * n + spare;
                 let mut tut = vec![0u8; size];
                 wr32(&mut tut, 0, bi::ELF);
@@ -317,7 +325,7 @@ fn derived(ctx: &mut Ctx, arena: &Arena) {
                 for k in 0..n {
                     let o = 20 + 64 * k;
                     wr32(&mut tut, o, 0);
-                    wr32(&mut tut, o + 4, 1);
+                    wr32(&mut tut, o + 4, if used >> k & 1 == 1 || k as u32 == shndx { 1 } else { 0 });
                     wr64(&mut tut, o + 16, INSIDE.as_ptr() as u64);
                     wr64(&mut tut, o + 32, 8);
                 }
@@ -332,7 +340,7 @@ fn derived(ctx: &mut Ctx, arena: &Arena) {
                 let follower = bi::tag(0x4242, &payload);
                 let planted_pad = |_t: usize, _k: usize| 0u8;
                 let region = bi::region(&[tut.clone(), follower, bi::end_tag()], &planted_pad);
-                let describe = || J::obj().set("part", "derived/elf").set("sections", n).set("spare_bytes", spare).set("shndx", shndx).set("declared_size", size).set("note", "section addr fields hold run-time addresses of static strings").set("region", J::hex(&region));
+                let describe = || J::obj().set("part", "derived/elf").set("in_use_mask", used).set("sections", n).set("spare_bytes", spare).set("shndx", shndx).set("declared_size", size).set("note", "section addr fields hold run-time addresses of static strings").set("region", J::hex(&region));
                 ctx.leaf(describe, |ctx| {
                     ctx.state_direct();
                     ctx.nontrivial();
@@ -361,8 +369,9 @@ fn derived(ctx: &mut Ctx, arena: &Arena) {
                         }
                         Out::Val(names) => {
                             ctx.ob("elf.names", names.len() as u64);
-                            if names.len() != n {
-                                ctx.violation("c05/derived/elf/count", || format!("{} sections yielded, {} stored in a tag of size {}", names.len(), n, size));
+                            let n_used = (0..n).filter(|&k| used >> k & 1 == 1 || k as u32 == shndx).count();
+                            if names.len() != n_used {
+                                ctx.violation("c05/derived/elf/count", || format!("{} sections yielded, {} in-use headers (of {}) stored in a tag of size {} followed by a tag whose words would decode as further headers", names.len(), n_used, n, size));
                             }
                             for nm in &names {
                                 let txt = nm.as_ref().map(|s| s.as_str()).unwrap_or("<utf8 error>");
@@ -379,6 +388,7 @@ fn derived(ctx: &mut Ctx, arena: &Arena) {
                         }
                     }
                 });
+              }
             }
         }
     }
@@ -563,6 +573,62 @@ fn run(ctx: &mut Ctx) {
         });
     }
     derived(ctx, &arena);
+    let huge_pal = Arena::new(20);
+    // indexed framebuffer: stored colour counts whose byte length crosses 8-, 16- and 17-bit boundaries, on small tags
+    ctx.bound("palette_counts", "indexed framebuffer tags of size 34..=64 and 802, 65570 x stored colour count in {0..=12, 85, 86, 255, 256, 257, 21845, 21846, 21847, 32768, 43690, 43691, 43692, 65534, 65535}: the palette is handed out only when 34 + 3 x count fits the declared size, at offset 34 with 3 x count bytes");
+    for size in (34usize..=64).chain([802, 65570]) {
+        for count in (0u16..=12).chain([85, 86, 255, 256, 257, 21845, 21846, 21847, 32768, 43690, 43691, 43692, 65534, 65535]) {
+            let mut img = vec![0u8; round8(size)];
+            for i in 8..img.len() {
+                img[i] = marker(i, 4);
+            }
+            wr32(&mut img, 0, bi::FRAMEBUFFER);
+            wr32(&mut img, 4, size as u32);
+            img[29] = 0;
+            wr16(&mut img, 32, count);
+            let describe = || J::obj().set("part", "palette_counts").set("declared_size", size).set("stored_palette_count", count);
+            ctx.leaf(describe, |ctx| {
+                ctx.state_direct();
+                ctx.nontrivial();
+                ctx.under_fills("c05/o5/palette", |ctx, fill| {
+                    huge_pal.fill(fill);
+                    let p = huge_pal.place_right(&img);
+                    let slice: &[u8] = unsafe { std::slice::from_raw_parts(p, img.len()) };
+                    let g = Generic::ref_from_slice(slice).unwrap();
+                    let r = ctx.call("cast+buffer_type", || {
+                        let t = g.cast::<FramebufferTag>();
+                        match t.buffer_type() {
+                            Ok(FramebufferType::Indexed { palette }) => Some((rel(palette, p), std::mem::size_of_val(palette))),
+                            _ => None,
+                        }
+                    });
+                    let fits = 34 + 3 * count as usize <= size;
+                    match r {
+                        Out::Panic => {
+                            ctx.ob("pal.panic", 1);
+                            if fits {
+                                ctx.violation("c05/palette/spurious-panic", || format!("framebuffer tag of size {} with {} colours: buffer_type() panicked although 34 + 3 x {} fits", size, count, count));
+                            } else {
+                                ctx.class("palette:refused");
+                            }
+                        }
+                        Out::Val(None) => ctx.violation("c05/palette/not-indexed", || "an indexed framebuffer tag was not decoded as indexed".into()),
+                        Out::Val(Some((off, len))) => {
+                            ctx.ob("pal.off", off as u64);
+                            ctx.ob("pal.len", len as u64);
+                            if !fits {
+                                ctx.violation("c05/palette-beyond-tag/counts", || format!("framebuffer tag of size {} stores {} colours: palette [{}, {}) handed out, the tag ends at {}", size, count, off, off + len as i64, size));
+                            } else if off != 34 || len != 3 * count as usize {
+                                ctx.violation("c05/palette-extent/counts", || format!("palette at offset {} length {}, expected offset 34 length {}", off, len, 3 * count as usize));
+                            } else {
+                                ctx.class("palette:ok");
+                            }
+                        }
+                    }
+                });
+            });
+        }
+    }
     // large declared sizes: element counts on both sides of 2^12, 2^16 and 2^20
     ctx.bound("large_sizes", "per DST kind: declared sizes B-1, B, B+1 and the nearest sizes FIXED + k*ELEM below and above B, for B in {4096, 65536, 2^20} (quick: without 2^20); tag-level seam, tag physically present and flush against a guard page");
     let huge = Arena::new(270);
